@@ -75,17 +75,18 @@ Print Assumptions C06_static_full_parsed.
 (* ---- the operator fragment, unbounded ---- *)
 (* For EVERY token list on which the reference precedence-climbing parser of C02
    (Spec/Pratt.v: values, prefix / suffix / binary operators of every rank,
-   `?>` `!>` `|>`, `&&` `||`, `.`, apply forms, comma and implicit space lists,
-   round brackets to any depth, whitespace; C02_full) is defined: parse accepts,
+   `?>` `!>` `|>`, `&&` `||`, `.`, apply forms `<~` `~>` `~~`, `^~`, comma and
+   implicit space lists, round brackets `( )` and nested expressions `{ }` to any
+   depth, whitespace; C02_full) is defined: parse accepts,
    and unless the tree is in finding class C06-K1 (else-chain without final
    else), C06-K3 (`^~` with something pending) or C06-K4 (a non-conditional before
    `|>`) -- the chain classes read at the head of a chain -- the tree keeps the
    arity discipline, hence every program BuilderWL.build emits for it, into any
    data object, is typable, ends every expression at depth one and is entered at
-   (0, 0).  No bound on length or nesting; C06-K2 (an operand position without a
-   value) cannot occur in the fragment. *)
-Theorem C06_balanced_operator_expressions : forall toks R,
-  Pratt.round_only toks = true -> Pratt.pratt toks = Some R ->
+   (0, 0).  No bound on length or nesting; a nested expression is an out-of-line
+   body that must itself keep the discipline and, as an operand, is one value;
+   C06-K2 (an operand position without a value) cannot occur in the fragment. *)
+Theorem C06_balanced_operator_expressions : forall toks R, Pratt.pratt toks = Some R ->
   exists root nodes t,
     parse toks = Ok (root, nodes) /\ Compile.tree_of nodes root = Some t /\
     (~ Known_C06_K1 t -> ~ Known_C06_K3 t -> ~ Known_C06_K4 t ->
@@ -99,8 +100,7 @@ Print Assumptions C06_balanced_operator_expressions.
 (* ... and a conditional is never the left operand of && / || there (the class
    C05-K2 of the well-formedness theorems is outside the fragment): operators
    taken later bind no tighter than the root of what they extend *)
-Theorem C06_operator_expressions_no_K2 : forall toks R,
-  Pratt.round_only toks = true -> Pratt.pratt toks = Some R ->
+Theorem C06_operator_expressions_no_K2 : forall toks R, Pratt.pratt toks = Some R ->
   exists root nodes t, parse toks = Ok (root, nodes) /\ Compile.tree_of nodes root = Some t /\ drops_arms t = false.
 Proof. exact C06_operator_expressions_no_K2_proof. Qed.
 Print Assumptions C06_operator_expressions_no_K2.
@@ -113,6 +113,25 @@ Example C06_ex_operator_expression :
                TT_Identifier; TT_JumpIfFalse; TT_Identifier; TT_MultiplicationSign; TT_Number; TT_ElseJump;
                TT_StartGroup; TT_Identifier; TT_Comma; TT_Identifier; TT_EndGroup; TT_Period; TT_Identifier;
                TT_Whitespace; TT_And; TT_Identifier] in
+  (match Pratt.pratt toks with Some _ => true | None => false end) = true /\
+  match parse toks with
+  | Ok (root, nodes) =>
+    match Compile.tree_of nodes root, build nodes empty_init lit_all (build_fuel nodes) root with
+    | Some t, Ok r =>
+      c06_known_b t = false /\ balanced t = true /\
+      match infer_depths (prog_of_build empty_init r) with Some _ => true | None => false end = true
+    | _, _ => False
+    end
+  | _ => False
+  end.
+Proof. vm_compute. repeat split; reflexivity. Qed.
+
+(* ... with functions: `{ $ < 3 ?> ^~ $ + 1 |> $ } <~ 0 + { 5 } ~~` (19 tokens): a reapply loop in
+   a nested expression that is applied, plus an applied constant function *)
+Example C06_ex_operator_expression_nested :
+  let toks := [TT_StartExpression; TT_Value; TT_LessThan; TT_Number; TT_JumpIfTrue; TT_Reapply; TT_Value; TT_PlusSign;
+               TT_Number; TT_ElseJump; TT_Value; TT_EndExpression; TT_Apply; TT_Number;
+               TT_PlusSign; TT_StartExpression; TT_Number; TT_EndExpression; TT_EmptyApply] in
   (match Pratt.pratt toks with Some _ => true | None => false end) = true /\
   match parse toks with
   | Ok (root, nodes) =>
